@@ -83,6 +83,7 @@ HARNESS_GROUPS = {
     "limiter": ["zz_vf_limiter_test.go", "zz_vf_internals_limiter_test.go", "zz_vf_internals_test.go"],
     "discovery": ["zz_vf_discovery_test.go", "zz_vf_internals_discovery_test.go"],
     "discint": ["zz_vf_internals_discovery_test.go"],
+    "sessionops": ["zz_vf_sessionops_test.go"],
     "misc": ["zz_vf_internals_misc_test.go", "zz_vf_escape_test.go", "zz_vf_cookiesize_test.go", "zz_vf_cryptoparams_test.go"],
 }
 TEST_GROUPS = {
@@ -91,7 +92,7 @@ TEST_GROUPS = {
     "TestVF_Concurrent": ["common", "world", "concurrent", "discint"], "TestVF_ConcurrentTick": ["common", "world", "concurrent", "discint"],
     "TestVF_Jwt": ["common", "jwt"], "TestVF_Limiter": ["common", "limiter"], "TestVF_Discovery": ["common", "discovery"],
     "TestVF_Escape": ["common", "world", "misc"], "TestVF_CookieSize": ["common", "world", "misc"],
-    "TestVF_CryptoParams": ["common", "world", "misc"],
+    "TestVF_CryptoParams": ["common", "world", "misc"], "TestVF_SessionOps": ["common", "world", "sessionops"],
 }
 
 
